@@ -43,7 +43,7 @@ starts_with skip skip_all mismatch line_number after_blank round import print_li
 too_short between inside beyond outside from_to range get put debug log brief_stack_trace vote_stack do_when_stack metaphone
 header_table row_table var_table run_table empty_stack line_fingerprint file_fingerprint counter""".split()
 QUALS = ["onmatch", "onchange", "asbool", "nocontrib", "latch", "increase", "decrease", "notnone", "once", "distinct"]
-ARB = ["total", "my_name", "k9", "x"]
+ARB = ["total", "my_name", "k9", "x", "Frogs", "ByLast", "UPPER", "camelCase"]
 HEADERS = ["a", "b2", "first_name", "Order Number", "x_y", "0", "12", "Last Year Number", ".ext", "a.b", "v1.2 beta", "No."]
 STRCH = list("abcXYZ 019_-+*/\\!?,;:%&()<>{}|^@#'`.=$[]")
 _FNS = None
@@ -103,7 +103,7 @@ def _hdr(draw):
 
 
 def _var(draw):
-    return ["vq", draw(st.sampled_from(["x", "y", "total", "v_1", "n2"])), _quals(draw)]
+    return ["vq", draw(st.sampled_from(["x", "y", "total", "v_1", "n2", "Total", "myVar"])), _quals(draw)]
 
 
 def _ref(draw):
@@ -201,19 +201,23 @@ class Layout:
         self.state = seed * 2654435761 % (2 ** 32) or 1
         self.inner_comment = False
         self.newline_in_args = False
+        self.crlf = False
 
     def pick(self, options):
         self.state = (self.state * 1103515245 + 12345) % (2 ** 31)
         return options[(self.state >> 8) % len(options)]
 
     def ws(self):
-        w = self.pick(["", "", " ", "  ", "\n", "\n    ", "\t"])
+        w = self.pick(["", "", " ", "  ", "\n", "\n    ", "\t", "\r\n  "])
         if "\n" in w:
             self.newline_in_args = True
         return w
 
     def sep(self):
-        s = self.pick([" ", "\n", "\n   ", " ~ inner comment ~ ", "\n ~ note: with, punctuation (and) more ~\n", "   "])
+        s = self.pick([" ", "\n", "\n   ", " ~ inner comment ~ ", "\n ~ note: with, punctuation (and) more ~\n", "   ",
+                       "\r\n", "\r\n\t", " \f "])
+        if "\r" in s or "\f" in s:
+            self.crlf = True
         if "~" in s:
             self.inner_comment = True
         return s
@@ -340,6 +344,16 @@ def stub_matcher():
     return _MATCHER[0]
 
 
+def _all_quals(d):
+    if isinstance(d, dict):
+        yield from d.get("quals", [])
+        for v in d.values():
+            yield from _all_quals(v)
+    elif isinstance(d, list):
+        for v in d:
+            yield from _all_quals(v)
+
+
 def has_ambig(tree):
     for t in tree.iter_subtrees():
         if t.data == "_ambig":
@@ -359,6 +373,10 @@ def run_case(case, sb):
         return 1 + max([depth(x) for x in n if isinstance(x, list)] or [0]) if isinstance(n, list) else 0
     has_q = "'quals': ['" in str(src)
     nontrivial = len(comps) >= 3 and max(depth(c) for c in comps) >= 3 and has_q and any(l.inner_comment or l.newline_in_args for l in lays)
+    if any(l.crlf for l in lays):
+        labels.append("layout:crlf-or-formfeed")
+    if any(ch.isupper() for ch in "".join(str(q) for q in _all_quals(src))):
+        labels.append("qualifier:mixed-case")
     summary = {"texts": texts[:2]}
     with warnings.catch_warnings(), contextlib.redirect_stdout(io.StringIO()):
         if case["kind"] == "struct":
